@@ -131,6 +131,31 @@ fn mk_span(tgt: &str, pk: &str, parent: Option<&Span>) -> Span {
     }
 }
 
+/// the same span forms with an owned entered guard as the explicit parent (`parent: &guard`)
+fn mk_span_under_guard(tgt: &str, parent: &EnteredSpan) -> Span {
+    match tgt {
+        "a" => tracing::span!(target: "a", parent: parent, Level::INFO, "sa", f = tracing::field::Empty),
+        _ => tracing::span!(target: "x", parent: parent, Level::INFO, "sx", f = tracing::field::Empty),
+    }
+}
+/// what `guard.clone()` turns out to be: a `Span` handle (through Deref) - kept as the new handle; anything else is dropped at once
+trait Settle {
+    fn settle(self, sh: &Shared, h2: u64) -> u64;
+}
+impl Settle for Span {
+    fn settle(self, sh: &Shared, h2: u64) -> u64 {
+        let id = hid(&self);
+        sh.handles.lock().unwrap().insert(h2, Box::new(self));
+        id
+    }
+}
+impl Settle for EnteredSpan {
+    fn settle(self, _: &Shared, _: u64) -> u64 {
+        drop(self);
+        0
+    }
+}
+
 /// the id `Span::id()` reports; 0 for a disabled span and for a span "created" by the no-op
 /// collector (which hands out the constant id 0xDEAD and records nothing)
 fn hid(s: &Span) -> u64 {
@@ -183,8 +208,12 @@ fn child() {
             }
             "new" => {
                 let (tgt, pk, p) = (step["tgt"].as_str().unwrap().to_string(), step["pk"].as_str().unwrap().to_string(), g("p"));
-                pool.run(t, move |_, sh| {
-                    let s = if pk == "of" {
+                pool.run(t, move |c, sh| {
+                    let s = if pk == "of" && !sh.handles.lock().unwrap().contains_key(&p) {
+                        // the parent's handle lives inside an owned entered guard of this thread: `parent: &guard`
+                        let g = c.owned.values().find(|(_, hh)| *hh == p).expect("parent handle neither free nor in a guard of this thread");
+                        mk_span_under_guard(&tgt, &g.0)
+                    } else if pk == "of" {
                         let pp = span_ptr(sh, p);
                         mk_span(&tgt, &pk, Some(unsafe { &*pp }))
                     } else {
@@ -195,7 +224,13 @@ fn child() {
                     json!(id)
                 })
             }
-            "clone" => pool.run(t, move |_, sh| {
+            "clone" => pool.run(t, move |c, sh| {
+                if !sh.handles.lock().unwrap().contains_key(&h) {
+                    // the handle lives inside an owned entered guard of this thread: `guard.clone()` (a Span, through Deref)
+                    let g = c.owned.values().find(|(_, hh)| *hh == h).expect("handle neither free nor in a guard of this thread");
+                    let x = g.0.clone();
+                    return json!(x.settle(sh, h2));
+                }
                 let p = span_ptr(sh, h);
                 let s = unsafe { &*p }.clone();
                 let id = hid(&s);
